@@ -11,7 +11,7 @@
 (*                           b = -1: i64::MIN + i (i >= 0)                 *)
 (*   REAL                  [t |-> "real", c, n, d]  c = "fin": n / d with  *)
 (*                           d a power of two (exact in f64), or one of    *)
-(*                           "nan", "pinf", "ninf", "nzero" (-0.0)         *)
+(*                           "nan", "nnan", "pinf", "ninf", "nzero" (-0.0) *)
 (*   BOOLEAN               [t |-> "bool", v]                               *)
 (*   TEXT                  [t |-> "text", s]   s = sequence of code points *)
 (*   ARRAY                 [t |-> "arr", et, xs]                           *)
@@ -33,6 +33,7 @@ MinV(i)     == [t |-> "int", b |-> -1, i |-> i]     \* i64::MIN + i
 RealV(n, d) == [t |-> "real", c |-> "fin", n |-> n, d |-> d]
 RealS(c)    == [t |-> "real", c |-> c, n |-> 0, d |-> 1]
 NaN  == RealS("nan")
+NNaN == RealS("nnan")      \* a NaN with the sign bit set ('-NaN', or what 0.0 / 0.0 gives on x86-64): the same value as NaN, other bits
 PInf == RealS("pinf")
 NInf == RealS("ninf")
 NZero == RealS("nzero")
@@ -68,7 +69,7 @@ CmpIntSeq(a, b) ==
 \*   0 = -inf, 1 = near i64::MIN, 2 = ordinary (exact rational), 3 = near i64::MAX, 4 = +inf, 5 = NaN, 23 = near 2^53 (between 2 and 3)
 NumClass(v) ==
   IF v.t = "int" THEN (IF v.b = -1 THEN 1 ELSE IF v.b = 1 THEN 3 ELSE IF v.b = 3 THEN 23 ELSE IF v.b = 4 THEN 22 ELSE IF v.b = 2 THEN 22 ELSE 2)
-  ELSE CASE v.c = "ninf" -> 0 [] v.c = "pinf" -> 4 [] v.c = "nan" -> 5 [] v.c = "p63" -> 3 [] v.c = "n63" -> 1 [] v.c \in {"p53", "p53b"} -> 23 [] OTHER -> 2
+  ELSE CASE v.c = "ninf" -> 0 [] v.c = "pinf" -> 4 [] v.c \in {"nan", "nnan"} -> 5 [] v.c = "p63" -> 3 [] v.c = "n63" -> 1 [] v.c \in {"p53", "p53b"} -> 23 [] OTHER -> 2
 ClassPos(c) == IF c = 23 THEN 25 ELSE IF c = 22 THEN 22 ELSE c * 10          \* position of a class on the line: 0, 10, 20, 22 (2^31.. 2^32), 25, 30, 40, 50
 
 \* numerator / denominator of an ordinary number (-0.0 counts as 0)
@@ -123,6 +124,7 @@ RECURSIVE Canon(_)
 Canon(v) ==
   CASE v.t = "real" ->
          IF v.c = "nzero" THEN IntV(0)
+         ELSE IF v.c = "nnan" THEN NaN
          ELSE IF v.c = "n63" THEN MinV(0)
          ELSE IF v.c = "p53" THEN I53(0) ELSE IF v.c = "p53b" THEN I53(2)
          ELSE IF v.c = "fin" /\ v.n % v.d = 0 THEN IntV(v.n \div v.d)
@@ -133,7 +135,7 @@ Canon(v) ==
 \* ---------------------------------------------------------------- As-built order
 \* Float::cmp of the pinned code: `<`, `>` else Equal -- NaN "equals" everything (FloatNanOrd).
 CmpFloatB(a, b) ==
-  IF "FloatNanOrd" \in Dev /\ (a.c = "nan" \/ b.c = "nan") THEN 0 ELSE CmpNum(a, b)
+  IF "FloatNanOrd" \in Dev /\ (a.c \in {"nan", "nnan"} \/ b.c \in {"nan", "nnan"}) THEN 0 ELSE CmpNum(a, b)
 
 RECURSIVE CmpB(_, _), CmpXsB(_, _)
 CmpXsB(a, b) ==
@@ -163,7 +165,7 @@ RECURSIVE EqB(_, _)
 EqB(a, b) ==
   IF "NumVariantOrder" \in Dev /\ VariantRank(a) # VariantRank(b) THEN FALSE
   ELSE IF a.t = "real" /\ b.t = "real" /\ "FloatNanOrd" \in Dev
-       THEN (a.c # "nan" /\ b.c # "nan" /\ CmpNum(a, b) = 0)
+       THEN (a.c \notin {"nan", "nnan"} /\ b.c \notin {"nan", "nnan"} /\ CmpNum(a, b) = 0)
   ELSE IF a.t = "arr" /\ b.t = "arr"
        THEN a.et = b.et /\ Len(a.xs) = Len(b.xs) /\ \A i \in 1..Len(a.xs) : EqB(a.xs[i], b.xs[i])
   ELSE IF "NumVariantOrder" \in Dev THEN CmpB(a, b) = 0
